@@ -1,2 +1,1122 @@
-(* Invariants of the cooperative resize protocol (Model/ResizeProto.v). *)
+(* Invariants of the cooperative resize protocol (Model/ResizeProto.v): an invariant proof by
+   induction over arbitrary schedules.  Layers: bins/log (bstep), thread-local invariants with the
+   finisher's sweep (L2), the phase / size_ctl counting invariant (L3); then the goal theorems and
+   non-vacuity examples. *)
 From Flurry Require Import Model.ResizeProto Proofs.ArithProofs.
+From Coq Require Import ZArith Lia List Bool Arith.
+Import ListNotations.
+Open Scope Z_scope.
+Ltac Zify.zify_post_hook ::= Z.div_mod_to_equations.
+
+(* ================= lists: updating one position ================= *)
+
+Lemma upd_mid {A} (l1 l2 : list A) (p x : A) :
+  firstn (length l1) (l1 ++ p :: l2) ++ x :: skipn (S (length l1)) (l1 ++ p :: l2) = l1 ++ x :: l2.
+Proof.
+  rewrite firstn_app, Nat.sub_diag, firstn_all. cbn [firstn]. rewrite app_nil_r.
+  rewrite skipn_app, skipn_all2 by lia.
+  replace (S (length l1) - length l1)%nat with 1%nat by lia. reflexivity.
+Qed.
+
+Lemma upd_id {A} (l : list A) t p :
+  nth_error l t = Some p -> firstn t l ++ p :: skipn (S t) l = l.
+Proof.
+  intros E. apply nth_error_split in E as (l1 & l2 & -> & <-). apply upd_mid.
+Qed.
+
+Lemma upd_length {A} (l : list A) i x :
+  (i < length l)%nat -> length (firstn i l ++ x :: skipn (S i) l) = length l.
+Proof.
+  intros H. destruct (nth_split l x H) as (l1 & l2 & E & Hl).
+  set (y := nth i l x) in *. clearbody y. subst l i. rewrite upd_mid.
+  rewrite !app_length. reflexivity.
+Qed.
+
+Lemma upd_nth {A} (l : list A) i x j d :
+  (i < length l)%nat ->
+  nth j (firstn i l ++ x :: skipn (S i) l) d = if Nat.eqb j i then x else nth j l d.
+Proof.
+  intros H. destruct (nth_split l d H) as (l1 & l2 & E & Hl).
+  set (y := nth i l d) in *. clearbody y. subst l i. rewrite upd_mid.
+  destruct (Nat.eqb_spec j (length l1)) as [->|Hne].
+  - apply nth_middle.
+  - destruct (Nat.lt_ge_cases j (length l1)) as [Hlt|Hge].
+    + rewrite !app_nth1 by assumption. reflexivity.
+    + rewrite !app_nth2 by assumption.
+      destruct (j - length l1)%nat eqn:Ej; [lia|]. reflexivity.
+Qed.
+
+(* ================= generic facts about one step ================= *)
+
+Section Proto.
+Variable n : Z.
+Variable ncpu : Z.
+Notation step := (step n ncpu).
+Notation act := (act n ncpu).
+Notation run := (run n ncpu).
+Notation head := (ResizeProto.head n).
+
+Lemma step_out_of_range c t : nth_error (c_thr c) t = None -> step c t = c.
+Proof.
+  intros E. unfold ResizeProto.step, thr. rewrite nth_overflow by (apply nth_error_None; exact E).
+  reflexivity.
+Qed.
+
+Lemma upd_thr_id c t p : nth_error (c_thr c) t = Some p -> upd_thr c t p = c.
+Proof. intros E. unfold upd_thr. rewrite (upd_id _ _ _ E). destruct c; reflexivity. Qed.
+
+Lemma run_app c s1 s2 : run c (s1 ++ s2) = run (run c s1) s2.
+Proof. unfold ResizeProto.run. apply fold_left_app. Qed.
+
+Lemma run_snoc c s a : run c (s ++ [a]) = act (run c s) a.
+Proof. rewrite run_app. reflexivity. Qed.
+
+(* induction principle: an invariant of init preserved by every action holds after every run *)
+Lemma run_ind (P : cfg -> Prop) c0 :
+  P c0 -> (forall c a, P c -> P (act c a)) -> forall s, P (run c0 s).
+Proof.
+  intros H0 Hs s. revert c0 H0. induction s as [|a s IH]; intros c0 H0; [exact H0|].
+  cbn. apply IH, Hs, H0.
+Qed.
+
+(* ================= bins and the migration log ================= *)
+
+Definition fwd_at (bs : list binstate) (i : nat) : bool :=
+  match nth_error bs i with Some BFwd => true | _ => false end.
+
+Lemma c_bin_not_fwd_lt c i : c_bin c i <> BFwd -> (i < length (c_bins c))%nat.
+Proof.
+  intros H. destruct (Nat.lt_ge_cases i (length (c_bins c))) as [|Hge]; [assumption|].
+  exfalso. apply H. unfold c_bin. apply nth_overflow. exact Hge.
+Qed.
+
+Lemma fwd_at_nth bs i : fwd_at bs i = true <-> (i < length bs)%nat /\ nth i bs BFwd = BFwd.
+Proof.
+  unfold fwd_at. destruct (nth_error bs i) as [b|] eqn:E.
+  - assert (Hlt : (i < length bs)%nat) by (apply nth_error_Some; congruence).
+    rewrite (nth_error_nth _ _ BFwd E). destruct b; intuition congruence.
+  - apply nth_error_None in E. split; [discriminate|]. intros [H _]. lia.
+Qed.
+
+(* what a step or an environment action can do to the bins and to the EMigrated events *)
+Inductive bstep (c c' : cfg) : Prop :=
+| bs_same :
+    c_bins c' = c_bins c ->
+    (forall j, count_ev (is_migrated j) c' = count_ev (is_migrated j) c) -> bstep c c'
+| bs_mig i :
+    c_bin c i <> BFwd ->
+    c_bins c' = firstn i (c_bins c) ++ BFwd :: skipn (S i) (c_bins c) ->
+    (forall j, count_ev (is_migrated j) c' =
+               ((if Nat.eqb j i then 1 else 0) + count_ev (is_migrated j) c)%nat) -> bstep c c'
+| bs_env i b :
+    c_bin c i <> BFwd -> b <> BFwd ->
+    c_bins c' = firstn i (c_bins c) ++ b :: skipn (S i) (c_bins c) ->
+    (forall j, count_ev (is_migrated j) c' = count_ev (is_migrated j) c) -> bstep c c'.
+
+Ltac case_if :=
+  match goal with
+  | |- context [if ?b then _ else _] => destruct b eqn:?
+  | |- context [match ?b with BEmpty => _ | BFull => _ | BFwd => _ end] => destruct b eqn:?
+  end.
+
+Lemma step_bstep c t : bstep c (step c t).
+Proof.
+  destruct (nth_error (c_thr c) t) as [p|] eqn:Ep.
+  2:{ rewrite step_out_of_range by assumption. apply bs_same; reflexivity. }
+  unfold ResizeProto.step, thr. rewrite (nth_error_nth _ _ _ Ep).
+  destruct p as [ph p]; destruct p; try destruct ph; cbn -[Nat.eqb]; repeat case_if;
+    try (apply bs_same; [reflexivity|intros j; reflexivity]).
+  all: eapply (bs_mig _ _ (Z.to_nat (li l))); [congruence|reflexivity|].
+  all: intros j; unfold count_ev; cbn -[Nat.eqb]; destruct (Nat.eqb j (Z.to_nat (li l))); reflexivity.
+Qed.
+
+Lemma env_bstep c i : bstep c (env_flip c i).
+Proof.
+  unfold env_flip. destruct (c_bin c i) eqn:E.
+  - apply (bs_env _ _ i BFull); [congruence|discriminate|reflexivity|reflexivity].
+  - apply (bs_env _ _ i BEmpty); [congruence|discriminate|reflexivity|reflexivity].
+  - apply bs_same; reflexivity.
+Qed.
+
+Lemma act_bstep c a : bstep c (act c a).
+Proof. destruct a; [apply step_bstep|apply env_bstep]. Qed.
+
+(* monotonicity of the bins: same length, forwarded bins stay forwarded *)
+Definition ble (bs bs' : list binstate) : Prop :=
+  length bs' = length bs /\ forall j, nth j bs BFwd = BFwd -> nth j bs' BFwd = BFwd.
+
+Lemma ble_refl bs : ble bs bs.
+Proof. split; auto. Qed.
+
+Lemma ble_upd bs i b : nth i bs BFwd <> BFwd -> ble bs (firstn i bs ++ b :: skipn (S i) bs).
+Proof.
+  intros H. assert (Hlt : (i < length bs)%nat).
+  { destruct (Nat.lt_ge_cases i (length bs)); [assumption|]. exfalso. apply H. apply nth_overflow. assumption. }
+  split; [apply upd_length; assumption|].
+  intros j Hj. rewrite upd_nth by assumption. destruct (Nat.eqb_spec j i); [subst; contradiction|assumption].
+Qed.
+
+Lemma bstep_ble c c' : bstep c c' -> ble (c_bins c) (c_bins c').
+Proof.
+  intros [E _|i Hi E _|i b Hi _ E _]; rewrite E; [apply ble_refl|apply ble_upd; exact Hi..].
+Qed.
+
+Definition log_ok (c : cfg) : Prop :=
+  forall i, count_ev (is_migrated i) c = if fwd_at (c_bins c) i then 1%nat else 0%nat.
+
+Lemma fwd_at_upd bs i b j :
+  (i < length bs)%nat ->
+  fwd_at (firstn i bs ++ b :: skipn (S i) bs) j =
+  if Nat.eqb j i then match b with BFwd => true | _ => false end else fwd_at bs j.
+Proof.
+  intros Hlt. apply eq_true_iff_eq. rewrite fwd_at_nth, upd_length, upd_nth by assumption.
+  destruct (Nat.eqb_spec j i) as [->|Hne].
+  - destruct b; intuition congruence.
+  - rewrite fwd_at_nth. reflexivity.
+Qed.
+
+Lemma bstep_log_ok c c' : bstep c c' -> log_ok c -> log_ok c'.
+Proof.
+  intros Hb Hl j. specialize (Hl j).
+  destruct Hb as [E Hc|i Hi E Hc|i b Hi Hb E Hc]; rewrite Hc, E.
+  - exact Hl.
+  - pose proof (c_bin_not_fwd_lt _ _ Hi) as Hlt. rewrite fwd_at_upd by assumption.
+    destruct (Nat.eqb_spec j i) as [->|Hne]; [|exact Hl].
+    rewrite Hl. destruct (fwd_at (c_bins c) i) eqn:Ef; [|reflexivity].
+    apply fwd_at_nth in Ef as [_ Ef]. contradiction.
+  - pose proof (c_bin_not_fwd_lt _ _ Hi) as Hlt. rewrite fwd_at_upd by assumption.
+    destruct (Nat.eqb_spec j i) as [->|Hne]; [|exact Hl].
+    rewrite Hl. destruct (fwd_at (c_bins c) i) eqn:Ef.
+    + apply fwd_at_nth in Ef as [_ Ef]. contradiction.
+    + destruct b; try reflexivity. contradiction.
+Qed.
+
+End Proto.
+
+(* ================= arithmetic of the protocol ================= *)
+
+Definition n_facts_b : bool :=
+  forallb (fun n => (1 <=? n) && (transfer_new_len n =? 2 * n) && (0 <=? transfer_next_sc n) &&
+                    (transfer_sweep_start n =? n) && (rs n + MAX_RESIZERS <? 0)) table_lengths.
+
+Lemma n_facts n : In n table_lengths ->
+  1 <= n /\ transfer_new_len n = 2 * n /\ 0 <= transfer_next_sc n /\ transfer_sweep_start n = n /\
+  rs n + MAX_RESIZERS < 0.
+Proof.
+  assert (H : n_facts_b = true) by (vm_compute; reflexivity).
+  intros Hn. unfold n_facts_b in H. rewrite forallb_forall in H. specialize (H n Hn). lia.
+Qed.
+
+Lemma MAX_RESIZERS_ge : 2 <= MAX_RESIZERS.
+Proof. apply Z.leb_le. vm_compute. reflexivity. Qed.
+
+Lemma init_sc_eq r : init_sc_add_count r = r + 2.
+Proof. reflexivity. Qed.
+Lemma join_sc_eq s : add_count_join_sc s = s + 1.
+Proof. reflexivity. Qed.
+Lemma leave_sc_eq s : transfer_leave_sc s = s - 1.
+Proof. reflexivity. Qed.
+Lemma not_last_false s n : transfer_not_last s n = false -> s = rs n + 2.
+Proof. intros H. apply transfer_last_iff in H. rewrite init_sc_eq in H. exact H. Qed.
+Lemma not_last_true s n : transfer_not_last s n = true -> s <> rs n + 2.
+Proof.
+  intros H E. assert (F : transfer_not_last s n = false) by (apply transfer_last_iff; rewrite init_sc_eq; exact E).
+  congruence.
+Qed.
+Lemma break_false s r : add_count_break s r = false -> s <> r + MAX_RESIZERS /\ s <> r + 1.
+Proof.
+  intros H. split; intros E.
+  - assert (F : add_count_break s r = true) by (apply add_count_break_iff; left; exact E). congruence.
+  - assert (F : add_count_break s r = true) by (apply add_count_break_iff; right; exact E). congruence.
+Qed.
+Lemma done_false i n m : transfer_done i n m = false -> 0 <= i < n.
+Proof. unfold transfer_done. lia. Qed.
+Lemma done_iff i n : transfer_done i n (2 * n) = false <-> 0 <= i < n.
+Proof. unfold transfer_done. lia. Qed.
+Lemma claim_i_eq a b : transfer_claim_i a b = a.
+Proof. reflexivity. Qed.
+
+(* ================= classification of thread states, counting ================= *)
+
+Inductive cls := CIdle | COut | CIsn | CPre | CSweep | CPub2 | CPub3.
+
+Definition cls_of (p : tpc) : cls :=
+  match p with
+  | T _ Idle => CIdle
+  | T _ Gone | T _ (HelpLoadTI _) | T _ (HelpCas _) => COut
+  | T _ InitSwapNT => CIsn
+  | T _ InitStoreTI | T _ InitLoadNT | T _ (Loop _) | T _ (ClaimCas _ _) | T _ (LeaveCas _ _) => CPre
+  | T _ (AtBin l _) => if lfinishing l then CSweep else CPre
+  | T _ (Pub1 _) => CSweep
+  | T _ (Pub2 _) => CPub2
+  | T _ (Pub3 _) => CPub3
+  end.
+
+Definition cls_eqb (a b : cls) : bool :=
+  match a, b with
+  | CIdle, CIdle | COut, COut | CIsn, CIsn | CPre, CPre | CSweep, CSweep | CPub2, CPub2 | CPub3, CPub3 => true
+  | _, _ => false
+  end.
+
+Definition ind (k : cls) (p : tpc) : Z := if cls_eqb (cls_of p) k then 1 else 0.
+
+Fixpoint cnt (k : cls) (l : list tpc) : Z :=
+  match l with [] => 0 | p :: l => ind k p + cnt k l end.
+
+Lemma cnt_app k l1 l2 : cnt k (l1 ++ l2) = cnt k l1 + cnt k l2.
+Proof. induction l1 as [|p l1 IH]; cbn [cnt app]; lia. Qed.
+
+Lemma cnt_mid k l1 p l2 : cnt k (l1 ++ p :: l2) = cnt k l1 + cnt k l2 + ind k p.
+Proof. rewrite cnt_app. cbn [cnt]. lia. Qed.
+
+Lemma cnt_nonneg k l : 0 <= cnt k l.
+Proof. induction l as [|p l IH]; cbn [cnt]; [lia|]. unfold ind. destruct (cls_eqb _ _); lia. Qed.
+
+Lemma cnt_repeat_idle k m : k <> CIdle -> cnt k (repeat (T PAct Idle) m) = 0.
+Proof. intros H. induction m as [|m IH]; cbn; [reflexivity|]. rewrite IH. destruct k; try reflexivity. contradiction. Qed.
+
+Lemma cnt_pos_in k l : 1 <= cnt k l -> exists p, In p l /\ cls_of p = k.
+Proof.
+  induction l as [|p l IH]; cbn [cnt]; [lia|]. intros H.
+  unfold ind in H. destruct (cls_eqb (cls_of p) k) eqn:E.
+  - exists p. split; [left; reflexivity|]. destruct (cls_of p), k; try discriminate; reflexivity.
+  - destruct IH as (q & Hq & Ek); [lia|]. exists q. split; [right; assumption|assumption].
+Qed.
+
+Lemma cnt_in_pos k l p : In p l -> cls_of p = k -> 1 <= cnt k l.
+Proof.
+  intros Hin E. induction l as [|q l IH]; [contradiction|]. cbn [cnt].
+  pose proof (cnt_nonneg k l). destruct Hin as [->|Hin].
+  - unfold ind. rewrite E. replace (cls_eqb k k) with true by (destruct k; reflexivity). lia.
+  - specialize (IH Hin). unfold ind. destruct (cls_eqb _ _); lia.
+Qed.
+
+(* ================= thread-local invariant ================= *)
+
+Definition allfwd_from (bs : list binstate) (k : nat) : Prop :=
+  forall j, (k <= j)%nat -> nth j bs BFwd = BFwd.
+
+Section Local.
+Variable n : Z.
+Notation head := (ResizeProto.head n).
+
+Definition tinv (bs : list binstate) (p : tpc) : Prop :=
+  match p with
+  | T _ (HelpLoadTI s) | T _ (HelpCas s) => s < 0 /\ s <> rs n + MAX_RESIZERS /\ s <> rs n + 1
+  | T _ (Loop _) => False
+  | T _ (ClaimCas l _) | T _ (LeaveCas l _) => lfinishing l = false
+  | T ph (AtBin l seen) =>
+      0 <= li l < n /\
+      (lfinishing l = true ->
+         ladvance l = false /\ allfwd_from bs (S (Z.to_nat (li l))) /\
+         (ph = PAct -> seen = BFwd -> nth (Z.to_nat (li l)) bs BFwd = BFwd))
+  | T _ (Pub1 _) | T _ (Pub2 _) | T _ (Pub3 _) => allfwd_from bs 0
+  | _ => True
+  end.
+
+Lemma allfwd_from_mono bs bs' k : ble bs bs' -> allfwd_from bs k -> allfwd_from bs' k.
+Proof. intros [_ Hb] H j Hj. apply Hb, H, Hj. Qed.
+
+Lemma tinv_mono bs bs' p : ble bs bs' -> tinv bs p -> tinv bs' p.
+Proof.
+  intros Hb. pose proof (allfwd_from_mono _ _ 0 Hb) as H0.
+  destruct p as [ph p]; destruct p; cbn [tinv]; auto.
+  intros [Hr Hf]. split; [exact Hr|]. intros Hfin. destruct (Hf Hfin) as (Ha & Hs & Hseen).
+  split; [exact Ha|]. split; [eapply allfwd_from_mono; eassumption|].
+  intros Hph Hse. apply Hb. apply Hseen; assumption.
+Qed.
+
+Hypothesis Hnn : transfer_new_len n = 2 * n.
+
+Lemma head_nofin l bs : lfinishing l = false -> cls_of (head l) = CPre /\ tinv bs (head l).
+Proof.
+  intros Hf. unfold ResizeProto.head, loop_head, after_claim.
+  destruct (ladvance l); cbn [lfinishing li lbound ladvance]; rewrite ?Hf, ?orb_false_r.
+  - destruct (li l - 1 >=? lbound l); cbn [lfinishing li].
+    + destruct (transfer_done (li l - 1) n (next_n n)) eqn:Ed; rewrite ?Hf; cbn [cls_of tinv lfinishing li]; rewrite ?Hf.
+      * split; reflexivity.
+      * split; [reflexivity|]. split; [eapply done_false; eassumption|congruence].
+    + cbn. split; reflexivity.
+  - destruct (transfer_done (li l) n (next_n n)) eqn:Ed; rewrite ?Hf; cbn [cls_of tinv]; rewrite ?Hf.
+    + split; reflexivity.
+    + split; [reflexivity|]. split; [eapply done_false; eassumption|congruence].
+Qed.
+
+(* the finisher moves on to the next bin below i (or to publication when i = 0) *)
+Lemma head_fin_adv i b bs :
+  0 <= i <= n -> allfwd_from bs (Z.to_nat i) ->
+  cls_of (head (mkL i b true true)) = CSweep /\ tinv bs (head (mkL i b true true)).
+Proof.
+  intros Hi Hall. unfold ResizeProto.head, loop_head, after_claim, next_n.
+  cbn [lfinishing li lbound ladvance]. rewrite orb_true_r. cbn [lfinishing li]. rewrite Hnn.
+  destruct (transfer_done (i - 1) n (2 * n)) eqn:Ed.
+  - cbn. split; [reflexivity|]. intros j _. apply Hall.
+    assert (~ (0 <= i - 1 < n)) by (rewrite <- done_iff; congruence). lia.
+  - apply done_iff in Ed. cbn. split; [reflexivity|]. split; [lia|]. intros _.
+    split; [reflexivity|]. split; [|discriminate].
+    intros j Hj. apply Hall. lia.
+Qed.
+
+Lemma head_fin_stay l :
+  lfinishing l = true -> ladvance l = false -> 0 <= li l < n -> head l = T PLoad (AtBin l BEmpty).
+Proof.
+  intros Hf Ha Hi. unfold ResizeProto.head, loop_head, after_claim, next_n. rewrite Ha, Hnn.
+  apply done_iff in Hi. rewrite Hi. reflexivity.
+Qed.
+
+End Local.
+
+Lemma head_fin_cls n l : lfinishing l = true -> cls_of (ResizeProto.head n l) = CSweep.
+Proof.
+  intros Hf. unfold ResizeProto.head, loop_head, after_claim.
+  destruct (ladvance l); cbn [lfinishing li lbound ladvance]; rewrite ?Hf, ?orb_true_r; cbn [lfinishing li].
+  - destruct (transfer_done (li l - 1) n (next_n n)); reflexivity.
+  - destruct (transfer_done (li l) n (next_n n)); cbn [cls_of]; rewrite ?Hf; reflexivity.
+Qed.
+
+Lemma head_nofin_cls n l : lfinishing l = false -> cls_of (ResizeProto.head n l) = CPre.
+Proof. intros Hf. apply (head_nofin n l [] Hf). Qed.
+
+Lemma ph_irrel {A} (ph : phase) (x : A) : match ph with PLoad => x | PAct => x end = x.
+Proof. destruct ph; reflexivity. Qed.
+
+Section Inv.
+Variable n : Z.
+Variable ncpu : Z.
+Hypothesis Hn : In n table_lengths.
+Notation step := (step n ncpu).
+Notation act := (act n ncpu).
+Notation run := (run n ncpu).
+Notation head := (ResizeProto.head n).
+Notation tinv := (tinv n).
+
+Let Hn1 : 1 <= n. Proof. apply n_facts, Hn. Qed.
+Let Hnn : transfer_new_len n = 2 * n. Proof. apply n_facts, Hn. Qed.
+Let Hsc : 0 <= transfer_next_sc n. Proof. apply n_facts, Hn. Qed.
+Let Hss : transfer_sweep_start n = n. Proof. apply n_facts, Hn. Qed.
+Let Hrs : rs n + MAX_RESIZERS < 0. Proof. apply n_facts, Hn. Qed.
+
+(* ---------- layer 2: local invariants of all threads, swapped -> all forwarded ---------- *)
+
+Definition L2 (c : cfg) : Prop :=
+  length (c_bins c) = Z.to_nat n /\ Forall (tinv (c_bins c)) (c_thr c) /\
+  (c_swapped c = true -> allfwd_from (c_bins c) 0).
+
+Lemma L2_intro c c' l1 p l2 p' :
+  L2 c -> c_thr c = l1 ++ p :: l2 -> c_thr c' = c_thr c ->
+  ble (c_bins c) (c_bins c') -> tinv (c_bins c') p' ->
+  (c_swapped c' = true -> c_swapped c = true \/ allfwd_from (c_bins c') 0) ->
+  L2 (upd_thr c' (length l1) p').
+Proof.
+  intros (Hlen & Hall & Hsw) El Et Hb Hp Hs. unfold L2, upd_thr. cbn [c_bins c_thr c_swapped].
+  rewrite Et, El, upd_mid. split; [destruct Hb; lia|]. split.
+  - rewrite El in Hall. apply Forall_app in Hall as [H1 H2]. inversion H2 as [|? ? _ H3]; subst.
+    apply Forall_app. split.
+    + eapply Forall_impl; [|exact H1]. intros q Hq. eapply tinv_mono; eassumption.
+    + constructor; [exact Hp|]. eapply Forall_impl; [|exact H3]. intros q Hq. eapply tinv_mono; eassumption.
+  - intros Hs'. destruct (Hs Hs') as [H|H]; [eapply allfwd_from_mono; eauto|assumption].
+Qed.
+
+Lemma L2_env c i : L2 c -> L2 (env_flip c i).
+Proof.
+  intros (Hlen & Hall & Hsw). pose proof (bstep_ble _ _ (env_bstep c i)) as Hb.
+  assert (Et : c_thr (env_flip c i) = c_thr c /\ c_swapped (env_flip c i) = c_swapped c).
+  { unfold env_flip. destruct (c_bin c i); split; reflexivity. }
+  destruct Et as [Et Es]. unfold L2. rewrite Et, Es. split; [destruct Hb; lia|]. split.
+  - eapply Forall_impl; [|exact Hall]. intros q Hq. eapply tinv_mono; eassumption.
+  - intros H. eapply allfwd_from_mono; eauto.
+Qed.
+
+Ltac l2_leaf HL El :=
+  eapply (L2_intro _ _ _ _ _ _ HL El); cbn [c_thr c_bins c_swapped c_set_sc c_set_ti c_set_nt c_set_swapped c_emit c_set_bin];
+  [reflexivity| try apply ble_refl | | try (intros Hsw'; left; exact Hsw')].
+
+Lemma L2_step c t : L2 c -> L2 (step c t).
+Proof.
+  intros HL. destruct (nth_error (c_thr c) t) as [p|] eqn:Ep.
+  2:{ rewrite step_out_of_range by assumption. exact HL. }
+  apply nth_error_split in Ep as (l1 & l2 & El & Ht). subst t.
+  assert (Hp : tinv (c_bins c) p).
+  { destruct HL as (_ & Hall & _). rewrite El in Hall. apply Forall_app in Hall as [_ H2].
+    inversion H2; assumption. }
+  assert (Hlen : length (c_bins c) = Z.to_nat n) by apply HL.
+  unfold ResizeProto.step, thr. rewrite El, nth_middle.
+  destruct p as [ph p]; destruct p; rewrite ?ph_irrel.
+  - (* Idle *)
+    destruct (c_sc c <? 0) eqn:Es.
+    + destruct (add_count_break (c_sc c) (rs n)) eqn:Eb; [exact HL|].
+      destruct (negb (c_nt c)); [exact HL|]. l2_leaf HL El.
+      cbn. apply break_false in Eb. split; [lia|exact Eb].
+    + destruct (c_swapped c); [exact HL|]. l2_leaf HL El. exact I.
+  - (* InitSwapNT *) l2_leaf HL El. exact I.
+  - (* InitStoreTI *) l2_leaf HL El. exact I.
+  - (* InitLoadNT *) l2_leaf HL El. apply head_nofin; reflexivity.
+  - (* HelpLoadTI *) destruct (c_ti c <=? 0); [l2_leaf HL El; exact I|l2_leaf HL El; exact Hp].
+  - (* HelpCas *)
+    destruct (c_sc c =? sc_seen); [|l2_leaf HL El; exact I].
+    l2_leaf HL El. apply head_nofin; reflexivity.
+  - (* Loop *) destruct Hp.
+  - (* ClaimCas *) cbn [tinv] in Hp. destruct ph.
+    + destruct (c_ti c <=? 0); [|l2_leaf HL El; exact Hp].
+      l2_leaf HL El. apply head_nofin; exact Hp.
+    + destruct (c_ti c =? next_index); l2_leaf HL El; apply head_nofin; assumption.
+  - (* LeaveCas *) cbn [tinv] in Hp. destruct ph.
+    + l2_leaf HL El. exact Hp.
+    + destruct (c_sc c =? sc_seen).
+      * destruct (transfer_not_last sc_seen n); [l2_leaf HL El; exact I|].
+        l2_leaf HL El. rewrite Hss. apply head_fin_adv; [assumption|lia|].
+        intros j Hj. apply nth_overflow. lia.
+      * l2_leaf HL El. apply head_nofin; assumption.
+  - (* AtBin *) cbn [tinv] in Hp. destruct Hp as [Hr Hf]. destruct ph.
+    + l2_leaf HL El. cbn [tinv]. split; [exact Hr|]. intros Hfin. destruct (Hf Hfin) as (Ha & Hs & _).
+      split; [exact Ha|]. split; [exact Hs|]. intros _ E. exact E.
+    + destruct (lfinishing l) eqn:Efin.
+      * (* the finisher *)
+        destruct (Hf eq_refl) as (Ha & Hs & Hseen).
+        assert (Hadv : forall bs, ble (c_bins c) bs -> nth (Z.to_nat (li l)) bs BFwd = BFwd ->
+                   tinv bs (head (mkL (li l) (lbound l) true true))).
+        { intros bs Hb Hi. apply head_fin_adv; [assumption|lia|].
+          intros j Hj. destruct (Nat.eq_dec j (Z.to_nat (li l))) as [->|Hne]; [exact Hi|].
+          apply Hb. apply Hs. lia. }
+        assert (Hstay : forall a, tinv (c_bins c) (head (mkL (li l) (lbound l) a true)) \/ a = true).
+        { intros [|]; [right; reflexivity|left]. rewrite head_fin_stay by (cbn; auto).
+          cbn [tinv li lfinishing ladvance]. split; [exact Hr|]. intros _. split; [reflexivity|].
+          split; [exact Hs|discriminate]. }
+        assert (Hl : l = mkL (li l) (lbound l) false true).
+        { destruct l; cbn in *; subst; reflexivity. }
+        destruct seen.
+        -- destruct (c_bin c (Z.to_nat (li l))) eqn:Eb.
+           ++ l2_leaf HL El; [apply ble_upd; unfold c_bin in Eb; congruence|].
+              apply Hadv; [apply ble_upd; unfold c_bin in Eb; congruence|].
+              rewrite upd_nth, Nat.eqb_refl by (apply (c_bin_not_fwd_lt c); congruence). reflexivity.
+           ++ l2_leaf HL El. destruct (Hstay false); [assumption|discriminate].
+           ++ l2_leaf HL El. destruct (Hstay false); [assumption|discriminate].
+        -- destruct (c_bin c (Z.to_nat (li l))) eqn:Eb.
+           ++ l2_leaf HL El. rewrite Hl. destruct (Hstay false); [assumption|discriminate].
+           ++ l2_leaf HL El; [apply ble_upd; unfold c_bin in Eb; congruence|].
+              apply Hadv; [apply ble_upd; unfold c_bin in Eb; congruence|].
+              rewrite upd_nth, Nat.eqb_refl by (apply (c_bin_not_fwd_lt c); congruence). reflexivity.
+           ++ l2_leaf HL El. rewrite Hl. destruct (Hstay false); [assumption|discriminate].
+        -- l2_leaf HL El. apply Hadv; [apply ble_refl|]. apply Hseen; reflexivity.
+      * (* an ordinary helper *)
+        destruct seen; [destruct (c_bin c (Z.to_nat (li l))) eqn:Eb..|]; l2_leaf HL El;
+          try (apply ble_upd; unfold c_bin in Eb; congruence);
+          apply head_nofin; solve [assumption|reflexivity].
+  - (* Pub1 *) l2_leaf HL El. exact Hp.
+  - (* Pub2 *) l2_leaf HL El; [exact Hp|]. intros _. right. exact Hp.
+  - (* Pub3 *) l2_leaf HL El. exact I.
+  - (* Gone *) exact HL.
+Qed.
+
+End Inv.
+
+Definition b2z (b : bool) : Z := if b then 1 else 0.
+
+(* the event of the initiating CAS *)
+Definition is_init (e : event) : bool := match e with EEntered _ true => true | _ => false end.
+
+Section Phase.
+Variable n : Z.
+Variable ncpu : Z.
+Variable sc0 : Z.
+Hypothesis Hn : In n table_lengths.
+Hypothesis Hsc0 : 0 <= sc0.
+Notation step := (step n ncpu).
+Notation head := (ResizeProto.head n).
+Notation tinv := (tinv n).
+Notation L2 := (L2 n).
+
+Definition npre (l : list tpc) : Z := cnt CIsn l + cnt CPre l.
+Definition nfin (l : list tpc) : Z := cnt CSweep l + cnt CPub2 l + cnt CPub3 l.
+
+Definition NotStarted (c : cfg) : Prop :=
+  c_log c = [] /\
+  c_sc c = sc0 /\ b2z (c_nt c) = 0 /\ b2z (c_swapped c) = 0 /\ count_ev is_published c = 0%nat /\
+  count_ev is_init c = 0%nat /\
+  cnt COut (c_thr c) = 0 /\ npre (c_thr c) = 0 /\ nfin (c_thr c) = 0.
+
+Definition Running (c : cfg) : Prop :=
+  let l := c_thr c in
+  c_sc c = rs n + 1 + npre l /\ npre l <= MAX_RESIZERS - 1 /\ count_ev is_published c = 0%nat /\
+  count_ev is_init c = 1%nat /\
+  ((nfin l = 0 /\ 1 <= npre l) \/ (nfin l = 1 /\ npre l = 0)) /\
+  (1 <= cnt CPub2 l + cnt CPub3 l -> b2z (c_nt c) = 0) /\
+  (b2z (c_swapped c) = 1 <-> 1 <= cnt CPub3 l) /\
+  (cnt CIsn l = 0 -> cnt CPub2 l + cnt CPub3 l = 0 -> b2z (c_nt c) = 1) /\
+  cnt CIsn l <= 1 /\ (1 <= cnt CIsn l -> b2z (c_nt c) = 0).
+
+Definition Published (c : cfg) : Prop :=
+  c_sc c = transfer_next_sc n /\ b2z (c_nt c) = 0 /\ b2z (c_swapped c) = 1 /\
+  count_ev is_published c = 1%nat /\ count_ev is_init c = 1%nat /\
+  npre (c_thr c) = 0 /\ nfin (c_thr c) = 0.
+
+Definition L3 (c : cfg) : Prop := NotStarted c \/ Running c \/ Published c.
+
+Lemma L3_env c i : L3 c -> L3 (env_flip c i).
+Proof.
+  intros H. unfold env_flip. destruct (c_bin c i); exact H.
+Qed.
+
+Ltac l3_pre :=
+  repeat match goal with
+  | H : transfer_not_last _ _ = true |- _ => apply not_last_true in H
+  | H : transfer_not_last _ _ = false |- _ => apply not_last_false in H
+  | H : add_count_break _ _ = false |- _ => apply break_false in H
+  end.
+
+Ltac l3_norm_goal :=
+  unfold NotStarted, Running, Published, npre, nfin, upd_thr, count_ev;
+  cbn [c_sc c_ti c_nt c_swapped c_bins c_thr c_log c_set_sc c_set_ti c_set_nt c_set_swapped c_emit
+       c_set_bin count_ev filter is_published is_init length];
+  rewrite ?upd_mid; rewrite ?cnt_mid; unfold ind;
+  rewrite ?init_sc_eq, ?join_sc_eq, ?leave_sc_eq.
+
+Ltac l3_solve :=
+  l3_norm_goal; cbn [cls_of cls_eqb lfinishing b2z negb] in *; lia.
+
+Lemma L3_step c t : L2 c -> L3 c -> L3 (step c t).
+Proof.
+  intros HL2 HL3. destruct (nth_error (c_thr c) t) as [p|] eqn:Ep.
+  2:{ rewrite step_out_of_range by assumption. exact HL3. }
+  apply nth_error_split in Ep as (l1 & l2 & El & Ht). subst t.
+  assert (Hp : tinv (c_bins c) p).
+  { destruct HL2 as (_ & Hall & _). rewrite El in Hall. apply Forall_app in Hall as [_ H2].
+    inversion H2; assumption. }
+  pose proof (n_facts n Hn) as (Hn1 & Hnn & Hsc & Hss & Hrs). pose proof MAX_RESIZERS_ge as Hmax.
+  pose proof (cnt_nonneg CIdle l1). pose proof (cnt_nonneg CIdle l2).
+  pose proof (cnt_nonneg COut l1). pose proof (cnt_nonneg COut l2).
+  pose proof (cnt_nonneg CIsn l1). pose proof (cnt_nonneg CIsn l2).
+  pose proof (cnt_nonneg CPre l1). pose proof (cnt_nonneg CPre l2).
+  pose proof (cnt_nonneg CSweep l1). pose proof (cnt_nonneg CSweep l2).
+  pose proof (cnt_nonneg CPub2 l1). pose proof (cnt_nonneg CPub2 l2).
+  pose proof (cnt_nonneg CPub3 l1). pose proof (cnt_nonneg CPub3 l2).
+  unfold ResizeProto.step, thr. rewrite El, nth_middle.
+  destruct c as [sc ti nt sw bins thrs log]. cbn [c_thr c_bins] in El, Hp. subst thrs.
+  assert (HL3' := HL3). unfold L3, NotStarted, Running, Published, npre, nfin, count_ev in HL3'.
+  cbn [c_sc c_ti c_nt c_swapped c_bins c_thr c_log count_ev] in HL3'.
+  rewrite !cnt_mid in HL3'. unfold ind in HL3'.
+  cbn [c_sc c_ti c_nt c_swapped c_bins c_thr c_log].
+  destruct p as [ph p]; destruct p; rewrite ?ph_irrel; cbn [tinv] in Hp.
+  - (* Idle *)
+    destruct (sc <? 0) eqn:Es.
+    + destruct (add_count_break sc (rs n)) eqn:Eb; [exact HL3|].
+      destruct (negb nt) eqn:Ent; [exact HL3|]. l3_pre.
+      destruct HL3' as [HN|[HR|HP]]; [exfalso; lia|right; left; l3_solve|exfalso; lia].
+    + destruct sw eqn:Esw; [exact HL3|].
+      destruct HL3' as [HN|[HR|HP]]; [right; left; l3_solve|exfalso; l3_solve|exfalso; l3_solve].
+  - (* InitSwapNT *)
+    destruct HL3' as [HN|[HR|HP]]; [exfalso; l3_solve|right; left; l3_solve|exfalso; l3_solve].
+  - (* InitStoreTI *)
+    destruct HL3' as [HN|[HR|HP]]; [exfalso; l3_solve|right; left; l3_solve|exfalso; l3_solve].
+  - (* InitLoadNT *)
+    rewrite ?(head_nofin_cls n (mkL 0 0 true false) eq_refl).
+    destruct HL3' as [HN|[HR|HP]]; [exfalso; l3_solve|right; left|exfalso; l3_solve].
+    l3_norm_goal. rewrite (head_nofin_cls n (mkL 0 0 true false) eq_refl). l3_solve.
+  - (* HelpLoadTI *)
+    destruct (ti <=? 0);
+    (destruct HL3' as [HN|[HR|HP]]; [exfalso; l3_solve|right; left; l3_solve|right; right; l3_solve]).
+  - (* HelpCas *)
+    destruct (sc =? sc_seen) eqn:Ecas.
+    + destruct HL3' as [HN|[HR|HP]]; [exfalso; l3_solve|right; left|exfalso; l3_solve].
+      l3_norm_goal. rewrite (head_nofin_cls n (mkL 0 0 true false) eq_refl). l3_solve.
+    + destruct HL3' as [HN|[HR|HP]]; [exfalso; l3_solve|right; left; l3_solve|right; right; l3_solve].
+  - (* Loop *) destruct Hp.
+  - (* ClaimCas *)
+    destruct HL3' as [HN|[HR|HP]]; [exfalso; l3_solve| |exfalso; l3_solve].
+    right; left. destruct ph.
+    + destruct (ti <=? 0); [|l3_solve].
+      l3_norm_goal. rewrite (head_nofin_cls n (mkL (-1) (lbound l) false (lfinishing l)) Hp). l3_solve.
+    + destruct (ti =? next_index); l3_norm_goal.
+      * rewrite (head_nofin_cls n (mkL _ _ false (lfinishing l)) Hp). l3_solve.
+      * rewrite (head_nofin_cls n l Hp). l3_solve.
+  - (* LeaveCas *)
+    destruct HL3' as [HN|[HR|HP]]; [exfalso; l3_solve| |exfalso; l3_solve].
+    right; left. destruct ph; [l3_solve|].
+    destruct (sc =? sc_seen) eqn:Ecas.
+    + destruct (transfer_not_last sc_seen n) eqn:Elast; l3_pre; [l3_solve|].
+      l3_norm_goal. rewrite (head_fin_cls n (mkL _ _ true true) eq_refl). l3_solve.
+    + l3_norm_goal. rewrite (head_nofin_cls n l Hp). l3_solve.
+  - (* AtBin *)
+    destruct (lfinishing l) eqn:Ef; cbn [cls_of] in HL3'; rewrite Ef in HL3'.
+    + assert (Hc : forall l', lfinishing l' = true -> cls_of (head l') = CSweep)
+        by (intros; apply head_fin_cls; assumption).
+      destruct HL3' as [HN|[HR|HP]]; [exfalso; l3_solve|right; left|exfalso; l3_solve].
+      destruct ph; [l3_norm_goal; cbn [cls_of]; rewrite Ef; l3_solve|].
+      destruct seen; [destruct (c_bin _ _)..|]; l3_norm_goal;
+        rewrite Hc by (cbn [lfinishing]; solve [assumption|reflexivity]); l3_solve.
+    + assert (Hc : forall l', lfinishing l' = false -> cls_of (head l') = CPre)
+        by (intros; apply head_nofin_cls; assumption).
+      destruct HL3' as [HN|[HR|HP]]; [exfalso; l3_solve|right; left|exfalso; l3_solve].
+      destruct ph; [l3_norm_goal; cbn [cls_of]; rewrite Ef; l3_solve|].
+      destruct seen; [destruct (c_bin _ _)..|]; l3_norm_goal;
+        rewrite Hc by (cbn [lfinishing]; solve [assumption|reflexivity]); l3_solve.
+  - (* Pub1 *)
+    destruct HL3' as [HN|[HR|HP]]; [exfalso; l3_solve|right; left; l3_solve|exfalso; l3_solve].
+  - (* Pub2 *)
+    destruct HL3' as [HN|[HR|HP]]; [exfalso; l3_solve|right; left; l3_solve|exfalso; l3_solve].
+  - (* Pub3 *)
+    destruct HL3' as [HN|[HR|HP]]; [exfalso; l3_solve|right; right; l3_solve|exfalso; l3_solve].
+  - (* Gone *) exact HL3.
+Qed.
+
+End Phase.
+
+(* ================= readable counters ================= *)
+
+(* threads that have entered (initiating or joining CAS done) and have not yet performed their
+   successful leave CAS *)
+Definition pre_leave (p : tpc) : bool :=
+  match p with
+  | T _ InitSwapNT | T _ InitStoreTI | T _ InitLoadNT => true
+  | T _ (Loop l) | T _ (ClaimCas l _) | T _ (LeaveCas l _) | T _ (AtBin l _) => negb (lfinishing l)
+  | _ => false
+  end.
+
+(* the elected last thread: sweeping (finishing = true) or publishing *)
+Definition finisher (p : tpc) : bool :=
+  match p with
+  | T _ (Loop l) | T _ (ClaimCas l _) | T _ (LeaveCas l _) | T _ (AtBin l _) => lfinishing l
+  | T _ (Pub1 _) | T _ (Pub2 _) | T _ (Pub3 _) => true
+  | _ => false
+  end.
+
+Definition at_pc (f : pc -> bool) (p : tpc) : bool := match p with T _ q => f q end.
+Definition is_InitSwapNT (q : pc) : bool := match q with InitSwapNT => true | _ => false end.
+Definition is_Pub23 (q : pc) : bool := match q with Pub2 _ | Pub3 _ => true | _ => false end.
+Definition is_Pub3 (q : pc) : bool := match q with Pub3 _ => true | _ => false end.
+
+Definition count_thr (f : tpc -> bool) (c : cfg) : Z := Z.of_nat (length (filter f (c_thr c))).
+
+Fixpoint sumb (f : tpc -> bool) (l : list tpc) : Z :=
+  match l with [] => 0 | p :: l => b2z (f p) + sumb f l end.
+
+Lemma count_sumb f l : Z.of_nat (length (filter f l)) = sumb f l.
+Proof.
+  induction l as [|p l IH]; [reflexivity|]. cbn [filter sumb]. destruct (f p); cbn [length b2z]; lia.
+Qed.
+
+Lemma sumb_cnt (P : tpc -> Prop) f (ks : list cls) l :
+  (forall p, P p -> b2z (f p) = fold_right (fun k a => ind k p + a) 0 ks) ->
+  Forall P l -> sumb f l = fold_right (fun k a => cnt k l + a) 0 ks.
+Proof.
+  intros Hf Hall. induction Hall as [|p l Hp Hall IH].
+  - cbn [sumb]. clear. induction ks as [|k0 ks IHk]; cbn [fold_right cnt] in *; lia.
+  - cbn [sumb]. rewrite IH, (Hf p Hp). clear. induction ks as [|k ks IH]; cbn [fold_right cnt] in *; lia.
+Qed.
+
+Section InvDef.
+Variable n : Z.
+Variable ncpu : Z.
+Variable sc0 : Z.
+Hypothesis Hn : In n table_lengths.
+Hypothesis Hsc0 : 0 <= sc0.
+Notation act := (act n ncpu).
+Notation tinv := (tinv n).
+
+Definition Inv (c : cfg) : Prop := L2 n c /\ L3 n sc0 c /\ log_ok c.
+
+Lemma Inv_act c a : Inv c -> Inv (act c a).
+Proof.
+  intros (H2 & H3 & Hl). split; [|split].
+  - destruct a; [apply L2_step; assumption|apply L2_env; assumption].
+  - destruct a; [apply L3_step; assumption|apply L3_env; assumption].
+  - eapply bstep_log_ok; [apply act_bstep|exact Hl].
+Qed.
+
+(* ---------- reading the invariant ---------- *)
+
+Lemma cls_counts bs p : tinv bs p ->
+  b2z (pre_leave p) = ind CIsn p + ind CPre p /\
+  b2z (finisher p) = ind CSweep p + ind CPub2 p + ind CPub3 p /\
+  b2z (inside p) = ind CIsn p + ind CPre p + ind CSweep p + ind CPub2 p + ind CPub3 p /\
+  b2z (at_pc is_InitSwapNT p) = ind CIsn p /\
+  b2z (at_pc is_Pub23 p) = ind CPub2 p + ind CPub3 p /\
+  b2z (at_pc is_Pub3 p) = ind CPub3 p.
+Proof.
+  destruct p as [ph p]; destruct p; cbn [tinv]; intros Hp; try contradiction;
+    unfold ind; cbn [cls_of pre_leave finisher inside at_pc is_InitSwapNT is_Pub23 is_Pub3];
+    try match type of Hp with lfinishing ?l = _ => rewrite Hp end;
+    try (destruct (lfinishing l)); cbn; repeat split; reflexivity.
+Qed.
+
+Section Reading.
+Variable c : cfg.
+Hypothesis HI : Inv c.
+
+Let Hall : Forall (tinv (c_bins c)) (c_thr c). Proof. apply HI. Qed.
+
+Ltac count_tac ks :=
+  unfold count_thr, npre, nfin; rewrite count_sumb;
+  rewrite (sumb_cnt (tinv (c_bins c)) _ ks (c_thr c));
+  [cbn [fold_right]; lia
+  |intros p Hp; cbn [fold_right]; destruct (cls_counts _ p Hp) as (?&?&?&?&?&?); lia
+  |exact Hall].
+
+Lemma count_pre_leave : count_thr pre_leave c = npre (c_thr c).
+Proof. count_tac [CIsn; CPre]. Qed.
+Lemma count_finisher : count_thr finisher c = nfin (c_thr c).
+Proof. count_tac [CSweep; CPub2; CPub3]. Qed.
+Lemma count_inside : count_thr inside c = npre (c_thr c) + nfin (c_thr c).
+Proof. count_tac [CIsn; CPre; CSweep; CPub2; CPub3]. Qed.
+Lemma count_isn : count_thr (at_pc is_InitSwapNT) c = cnt CIsn (c_thr c).
+Proof. count_tac [CIsn]. Qed.
+Lemma count_pub23 : count_thr (at_pc is_Pub23) c = cnt CPub2 (c_thr c) + cnt CPub3 (c_thr c).
+Proof. count_tac [CPub2; CPub3]. Qed.
+Lemma count_pub3 : count_thr (at_pc is_Pub3) c = cnt CPub3 (c_thr c).
+Proof. count_tac [CPub3]. Qed.
+
+Lemma count_thr_nonneg f : 0 <= count_thr f c.
+Proof. unfold count_thr. lia. Qed.
+
+Lemma all_fwd_iff : all_fwd c = true <-> allfwd_from (c_bins c) 0.
+Proof.
+  unfold all_fwd, allfwd_from. rewrite forallb_forall. split.
+  - intros H j _. destruct (Nat.lt_ge_cases j (length (c_bins c))) as [Hlt|Hge].
+    + specialize (H _ (nth_In _ BFwd Hlt)). destruct (nth j (c_bins c) BFwd); try discriminate. reflexivity.
+    + apply nth_overflow. exact Hge.
+  - intros H b Hb. apply (In_nth _ _ BFwd) in Hb as (j & Hj & <-). rewrite H by lia. reflexivity.
+Qed.
+
+End Reading.
+End InvDef.
+
+
+Section Main.
+Variable n : Z.
+Variable ncpu : Z.
+Variable sc0 : Z.
+Variable bins0 : list binstate.
+Variable k : nat.
+Hypothesis Hn : In n table_lengths.
+Hypothesis Hcpu : 1 <= ncpu.
+Hypothesis Hsc0 : 0 <= sc0.
+Hypothesis Hlen0 : length bins0 = Z.to_nat n.
+Hypothesis Hnofwd : ~ In BFwd bins0.
+
+Notation run := (run n ncpu).
+Notation act := (act n ncpu).
+Notation step := (step n ncpu).
+Notation tinv := (tinv n).
+
+Lemma Inv_init : Inv n sc0 (init sc0 bins0 k).
+Proof.
+  split; [|split].
+  - split; [exact Hlen0|]. split; [|discriminate].
+    cbn [init c_thr c_bins]. induction k as [|m IH]; cbn [repeat]; constructor; [exact I|exact IH].
+  - left. unfold NotStarted, npre, nfin. cbn [init c_thr c_log c_sc c_nt c_swapped b2z].
+    rewrite !cnt_repeat_idle by discriminate. repeat split; reflexivity.
+  - intros i. unfold count_ev. cbn [init c_log c_bins filter length].
+    destruct (fwd_at bins0 i) eqn:E; [|reflexivity]. exfalso. apply Hnofwd.
+    unfold fwd_at in E. destruct (nth_error bins0 i) as [b|] eqn:Eb; [|discriminate].
+    destruct b; try discriminate. eapply nth_error_In; eassumption.
+Qed.
+
+Theorem Inv_run sched : Inv n sc0 (run (init sc0 bins0 k) sched).
+Proof. apply run_ind; [exact Inv_init|intros; apply Inv_act; assumption]. Qed.
+
+End Main.
+
+(* ================= goal theorems ================= *)
+
+(* BFwd is terminal, from any configuration whatsoever *)
+Theorem bfwd_terminal n ncpu c sched i :
+  c_bin c i = BFwd -> c_bin (run n ncpu c sched) i = BFwd.
+Proof.
+  intros H. apply (run_ind n ncpu (fun c' => c_bin c' i = BFwd)); [exact H|].
+  intros c' a Hc'. destruct (bstep_ble _ _ (act_bstep n ncpu c' a)) as [_ Hb]. apply Hb. exact Hc'.
+Qed.
+
+Section Goals.
+Variable n : Z.
+Variable ncpu : Z.
+Variable sc0 : Z.
+Variable bins0 : list binstate.
+Variable k : nat.
+Hypothesis Hn : In n table_lengths.
+Hypothesis Hcpu : 1 <= ncpu.
+Hypothesis Hsc0 : 0 <= sc0.
+Hypothesis Hlen0 : length bins0 = Z.to_nat n.
+Hypothesis Hnofwd : ~ In BFwd bins0.
+Variable sched : list action.
+
+Notation c := (run n ncpu (init sc0 bins0 k) sched).
+
+Let HI : Inv n sc0 c. Proof. apply Inv_run; assumption. Qed.
+
+(* ---- 1. every bin is migrated at most once; forwarded iff migrated ---- *)
+
+Theorem each_bin_once i : (count_ev (is_migrated i) c <= 1)%nat.
+Proof.
+  destruct HI as (_ & _ & Hl). rewrite (Hl i). destruct (fwd_at _ _); lia.
+Qed.
+
+Theorem migrated_iff_fwd i :
+  (i < Z.to_nat n)%nat -> (c_bin c i = BFwd <-> count_ev (is_migrated i) c = 1%nat).
+Proof.
+  intros Hi. destruct HI as ((Hlen & _) & _ & Hl). rewrite (Hl i).
+  destruct (fwd_at (c_bins c) i) eqn:E.
+  - apply fwd_at_nth in E as [_ E]. unfold c_bin. tauto.
+  - split; [|discriminate]. intros Hb. exfalso.
+    assert (F : fwd_at (c_bins c) i = true) by (apply fwd_at_nth; split; [lia|exact Hb]). congruence.
+Qed.
+
+Theorem migrated_in_range i : (Z.to_nat n <= i)%nat -> count_ev (is_migrated i) c = 0%nat.
+Proof.
+  intros Hi. destruct HI as ((Hlen & _) & _ & Hl). rewrite (Hl i).
+  destruct (fwd_at (c_bins c) i) eqn:E; [|reflexivity]. apply fwd_at_nth in E as [E _]. lia.
+Qed.
+
+(* ---- 5. bin indices are in range ---- *)
+
+Theorem indices_in_range t ph l seen :
+  thr c t = T ph (AtBin l seen) -> 0 <= li l < n /\ (Z.to_nat (li l) < length (c_bins c))%nat.
+Proof.
+  intros Ht. destruct HI as ((Hlen & Hall & _) & _ & _).
+  assert (Hin : In (T ph (AtBin l seen)) (c_thr c)).
+  { unfold thr in Ht. destruct (Nat.lt_ge_cases t (length (c_thr c))) as [Hlt|Hge].
+    - rewrite <- Ht. apply nth_In. exact Hlt.
+    - rewrite nth_overflow in Ht by exact Hge. discriminate. }
+  rewrite Forall_forall in Hall. specialize (Hall _ Hin). cbn [tinv] in Hall. lia.
+Qed.
+
+(* ---- the phase invariant (4.) ---- *)
+
+Theorem phase_invariant : NotStarted sc0 c \/ Running n c \/ Published n c.
+Proof. apply HI. Qed.
+
+Lemma pre_fin_nonneg : 0 <= npre (c_thr c) /\ 0 <= nfin (c_thr c).
+Proof.
+  unfold npre, nfin.
+  pose proof (cnt_nonneg CIsn (c_thr c)). pose proof (cnt_nonneg CPre (c_thr c)).
+  pose proof (cnt_nonneg CSweep (c_thr c)). pose proof (cnt_nonneg CPub2 (c_thr c)).
+  pose proof (cnt_nonneg CPub3 (c_thr c)). lia.
+Qed.
+
+Lemma in_progress_running : c_sc c < 0 -> Running n c.
+Proof.
+  intros Hs. pose proof (n_facts n Hn) as (_ & _ & Hsc & _).
+  destruct phase_invariant as [HN|[HR|HP]]; [|exact HR|].
+  - destruct HN as (_ & E & _). lia.
+  - destruct HP as (E & _). lia.
+Qed.
+
+Lemma count_pos_nonempty f : (1 <= count_ev f c)%nat -> c_log c <> [].
+Proof. unfold count_ev. intros H E. rewrite E in H. cbn in H. lia. Qed.
+
+Theorem in_progress_iff :
+  c_sc c < 0 <-> (c_log c <> [] /\ count_ev is_published c = 0%nat).
+Proof.
+  pose proof (n_facts n Hn) as (_ & _ & Hsc & _ & Hrs).
+  destruct phase_invariant as [HN|[HR|HP]].
+  - destruct HN as (El & E & _). split; [lia|]. intros [H _]. contradiction.
+  - destruct HR as (E & Hb & Ep & Ei & _). pose proof pre_fin_nonneg. split; [|lia].
+    intros _. split; [|exact Ep]. apply (count_pos_nonempty is_init). lia.
+  - destruct HP as (E & _ & _ & Ep & _). split; [lia|]. intros [_ H]. lia.
+Qed.
+
+Lemma b2z_0 b : b2z b = 0 -> b = false.
+Proof. destruct b; cbn; [lia|reflexivity]. Qed.
+Lemma b2z_1 b : b2z b = 1 -> b = true.
+Proof. destruct b; cbn; [reflexivity|lia]. Qed.
+Lemma b2z_not_1 b : b2z b <> 1 -> b = false.
+Proof. destruct b; cbn; [lia|reflexivity]. Qed.
+
+(* size_ctl = stamp + 1 + number of threads that entered and have not yet left, while the
+   resize is in progress; the bound; the election: either nobody is finishing and somebody is
+   still to leave, or exactly one finisher exists, everybody else has left and size_ctl = rs + 1
+   (at which value every join test refuses) *)
+Theorem size_ctl_counts_resizers :
+  c_sc c < 0 ->
+  c_sc c = rs n + 1 + count_thr pre_leave c /\
+  count_thr pre_leave c + count_thr finisher c < MAX_RESIZERS /\
+  ((count_thr finisher c = 0 /\ 1 <= count_thr pre_leave c /\ c_swapped c = false) \/
+   (count_thr finisher c = 1 /\ count_thr pre_leave c = 0 /\ c_sc c = rs n + 1)).
+Proof.
+  intros Hs. pose proof (in_progress_running Hs) as (E & Hb & _ & _ & Hd & _ & Hsw & _).
+  rewrite (count_pre_leave n sc0 c HI), (count_finisher n sc0 c HI).
+  pose proof pre_fin_nonneg as [Hp Hf]. pose proof MAX_RESIZERS_ge.
+  split; [exact E|]. split; [lia|].
+  destruct Hd as [[Hd1 Hd2]|[Hd1 Hd2]]; [left|right; lia].
+  split; [exact Hd1|]. split; [exact Hd2|]. apply b2z_not_1. intros H1. apply Hsw in H1.
+  unfold nfin in Hd1. pose proof (cnt_nonneg CSweep (c_thr c)). pose proof (cnt_nonneg CPub2 (c_thr c)). lia.
+Qed.
+
+Theorem size_ctl_when_not_resizing :
+  0 <= c_sc c -> count_thr inside c = 0 /\ (c_sc c = sc0 \/ c_sc c = next_threshold n).
+Proof.
+  intros Hs. pose proof (n_facts n Hn) as (_ & _ & Hsc & _ & Hrs).
+  rewrite (count_inside n sc0 c HI). pose proof pre_fin_nonneg.
+  destruct phase_invariant as [HN|[HR|HP]].
+  - destruct HN as (_ & E & _ & _ & _ & _ & _ & Hp & Hf). split; [lia|left; exact E].
+  - destruct HR as (E & Hb & _). lia.
+  - destruct HP as (E & _ & _ & _ & _ & Hp & Hf). split; [lia|right; exact E].
+Qed.
+
+Theorem helpers_bounded : count_thr inside c < MAX_RESIZERS.
+Proof.
+  rewrite (count_inside n sc0 c HI). pose proof MAX_RESIZERS_ge.
+  destruct phase_invariant as [HN|[HR|HP]].
+  - destruct HN as (_ & _ & _ & _ & _ & _ & _ & Hp & Hf). lia.
+  - destruct HR as (_ & Hb & _ & _ & Hd & _). lia.
+  - destruct HP as (_ & _ & _ & _ & _ & Hp & Hf). lia.
+Qed.
+
+(* next_table is non-null exactly from the initiator's swap until the finisher's Pub1 store *)
+Theorem next_table_window :
+  c_nt c = true <->
+  (c_sc c < 0 /\ count_thr (at_pc is_InitSwapNT) c = 0 /\ count_thr (at_pc is_Pub23) c = 0).
+Proof.
+  pose proof (n_facts n Hn) as (_ & _ & Hsc & _ & Hrs).
+  rewrite (count_isn n sc0 c HI), (count_pub23 n sc0 c HI).
+  pose proof (cnt_nonneg CIsn (c_thr c)). pose proof (cnt_nonneg CPub2 (c_thr c)).
+  pose proof (cnt_nonneg CPub3 (c_thr c)). pose proof pre_fin_nonneg.
+  destruct phase_invariant as [HN|[HR|HP]].
+  - destruct HN as (_ & E & Hnt & _). apply b2z_0 in Hnt. rewrite Hnt. split; [discriminate|lia].
+  - destruct HR as (E & Hb & _ & _ & _ & Hp & _ & Ht & Hi1 & Hi0). split.
+    + intros Hnt. rewrite Hnt in *. cbn [b2z] in *. lia.
+    + intros (_ & Hi & Hq). apply b2z_1. apply Ht; assumption.
+  - destruct HP as (E & Hnt & _). apply b2z_0 in Hnt. rewrite Hnt. split; [discriminate|lia].
+Qed.
+
+(* ---- 2. single publication, after every bin was migrated ---- *)
+
+Theorem single_publisher : (count_ev is_published c <= 1)%nat.
+Proof.
+  destruct phase_invariant as [HN|[HR|HP]].
+  - destruct HN as (_ & _ & _ & _ & E & _). lia.
+  - destruct HR as (_ & _ & E & _). lia.
+  - destruct HP as (_ & _ & _ & E & _). lia.
+Qed.
+
+Theorem single_initiator : (count_ev is_init c <= 1)%nat.
+Proof.
+  destruct phase_invariant as [HN|[HR|HP]].
+  - destruct HN as (_ & _ & _ & _ & _ & E & _). lia.
+  - destruct HR as (_ & _ & _ & E & _). lia.
+  - destruct HP as (_ & _ & _ & _ & E & _). lia.
+Qed.
+
+Theorem swapped_all_fwd : c_swapped c = true -> all_fwd c = true.
+Proof.
+  intros Hs. apply all_fwd_iff. destruct HI as ((_ & _ & H) & _). apply H. exact Hs.
+Qed.
+
+Theorem published_is_swapped : count_ev is_published c = 1%nat <-> c_swapped c = true /\ 0 <= c_sc c.
+Proof.
+  pose proof (n_facts n Hn) as (_ & _ & Hsc & _ & Hrs). pose proof pre_fin_nonneg.
+  destruct phase_invariant as [HN|[HR|HP]].
+  - destruct HN as (_ & _ & _ & Hsw & E & _). apply b2z_0 in Hsw. rewrite Hsw, E.
+    split; [discriminate|]. intros [? _]. discriminate.
+  - destruct HR as (E & Hb & Ep & _). rewrite Ep. split; [discriminate|lia].
+  - destruct HP as (E & _ & Hsw & Ep & _). apply b2z_1 in Hsw. rewrite Hsw, Ep.
+    split; [|reflexivity]. intros _. split; [reflexivity|lia].
+Qed.
+
+Theorem published_after_all_migrated : count_ev is_published c = 1%nat -> all_fwd c = true.
+Proof. intros H. apply swapped_all_fwd. apply published_is_swapped. exact H. Qed.
+
+(* ---- 3. completion ---- *)
+
+Lemma nobody_inside_count : nobody_inside c = true -> count_thr inside c = 0.
+Proof.
+  unfold nobody_inside, count_thr. intros H.
+  replace (filter inside (c_thr c)) with (@nil tpc); [reflexivity|].
+  induction (c_thr c) as [|p l IH]; [reflexivity|]. cbn [forallb filter] in *.
+  apply andb_prop in H as [H1 H2]. destruct (inside p); [discriminate|]. apply IH. exact H2.
+Qed.
+
+Theorem completion :
+  nobody_inside c = true ->
+  (c_swapped c = false /\ c_sc c = sc0 /\ c_nt c = false /\ c_log c = []) \/
+  (c_swapped c = true /\ c_sc c = next_threshold n /\ c_nt c = false /\ all_fwd c = true /\
+   count_ev is_published c = 1%nat).
+Proof.
+  intros Hno. apply nobody_inside_count in Hno. rewrite (count_inside n sc0 c HI) in Hno.
+  pose proof pre_fin_nonneg.
+  destruct phase_invariant as [HN|[HR|HP]].
+  - left. destruct HN as (El & E & Hnt & Hsw & _). apply b2z_0 in Hnt, Hsw. auto.
+  - exfalso. destruct HR as (_ & _ & _ & _ & Hd & _). lia.
+  - right. destruct HP as (E & Hnt & Hsw & Ep & _). apply b2z_0 in Hnt. apply b2z_1 in Hsw.
+    split; [exact Hsw|]. split; [exact E|]. split; [exact Hnt|]. split; [|exact Ep].
+    apply swapped_all_fwd. exact Hsw.
+Qed.
+
+End Goals.
+
+(* ================= 6. non-vacuity: concrete runs ================= *)
+
+Definition each_migrated_once (m : nat) (c : cfg) : bool :=
+  forallb (fun i => Nat.eqb (count_ev (is_migrated i) c) 1) (seq 0 m).
+
+(* (a) one thread alone resizes a 16-bin table: it initiates, claims (and gets i = n), is the
+   last one out, sweeps 15 .. 0 and publishes *)
+Definition ex1 : cfg := run 16 4 (init 12 (repeat BFull 16) 1) (repeat (AThread 0%nat) 60).
+
+Example ex1_complete :
+  c_swapped ex1 = true /\ all_fwd ex1 = true /\ nobody_inside ex1 = true /\
+  c_sc ex1 = next_threshold 16 /\ c_nt ex1 = false /\ each_migrated_once 16 ex1 = true /\
+  count_ev is_published ex1 = 1%nat.
+Proof. vm_compute. repeat split; reflexivity. Qed.
+
+(* 43 steps are exactly enough, 42 are not *)
+Example ex1_steps :
+  c_swapped (run 16 4 (init 12 (repeat BFull 16) 1) (repeat (AThread 0%nat) 43)) = true /\
+  nobody_inside (run 16 4 (init 12 (repeat BFull 16) 1) (repeat (AThread 0%nat) 42)) = false.
+Proof. vm_compute. split; reflexivity. Qed.
+
+(* (b) three threads, 64 bins, stride 16, round-robin with some environment actions *)
+Definition rr (m : nat) : list action :=
+  concat (repeat [AThread 0%nat; AThread 1%nat; AThread 2%nat] m).
+Definition sched2 : list action := rr 6 ++ [AEnv 3%nat; AEnv 40%nat; AEnv 63%nat] ++ rr 400.
+Definition ex2_at (m : nat) : cfg := run 64 4 (init 48 (repeat BFull 64) 3) (firstn m sched2).
+Definition ex2 : cfg := run 64 4 (init 48 (repeat BFull 64) 3) sched2.
+
+Example ex2_stride : stride 64 4 = 16.
+Proof. vm_compute. reflexivity. Qed.
+
+Example ex2_complete :
+  c_swapped ex2 = true /\ all_fwd ex2 = true /\ nobody_inside ex2 = true /\
+  c_sc ex2 = next_threshold 64 /\ c_nt ex2 = false /\ each_migrated_once 64 ex2 = true /\
+  count_ev is_published ex2 = 1%nat.
+Proof. vm_compute. repeat split; reflexivity. Qed.
+
+(* three threads are inside at the same time after 30 actions; size_ctl = rs + 1 + 3 there *)
+Example ex2_concurrent :
+  count_thr inside (ex2_at 30) = 3 /\ c_sc (ex2_at 30) = rs 64 + 1 + 3 /\
+  count_thr inside (ex2_at 100) = 2 /\ count_thr finisher (ex2_at 300) = 1 /\
+  c_sc (ex2_at 300) = rs 64 + 1.
+Proof. vm_compute. repeat split; reflexivity. Qed.
+
+(* the peculiarity i = next_index: the stride 48..63 is claimed by the initiator, who gets
+   i = 64 = n and leaves at once; bins 49..63 are migrated by the finisher's sweep only, after
+   everybody else has left (event order of the run) *)
+Example ex2_log_shape :
+  exists pre post, rev (c_log ex2) = pre ++ [ELeft 2%nat false] ++ post /\
+    forallb (fun e => negb (is_migrated 63 e)) pre = true /\
+    existsb (is_migrated 63) post = true /\ existsb (is_migrated 49) post = true.
+Proof.
+  exists (firstn 37 (rev (c_log ex2))), (skipn 38 (rev (c_log ex2))). vm_compute.
+  repeat split; reflexivity.
+Qed.
+
+(* ================= assumptions ================= *)
+Print Assumptions bfwd_terminal.
+Print Assumptions each_bin_once.
+Print Assumptions migrated_iff_fwd.
+Print Assumptions migrated_in_range.
+Print Assumptions indices_in_range.
+Print Assumptions phase_invariant.
+Print Assumptions in_progress_iff.
+Print Assumptions size_ctl_counts_resizers.
+Print Assumptions size_ctl_when_not_resizing.
+Print Assumptions helpers_bounded.
+Print Assumptions next_table_window.
+Print Assumptions single_publisher.
+Print Assumptions single_initiator.
+Print Assumptions swapped_all_fwd.
+Print Assumptions published_is_swapped.
+Print Assumptions published_after_all_migrated.
+Print Assumptions completion.
+Print Assumptions ex1_complete.
+Print Assumptions ex2_complete.
+Print Assumptions ex2_concurrent.
